@@ -64,6 +64,11 @@ def check_merge(pred, ref, metric, thr, order):
         seen.add(p)
         by_ref.setdefault(r, []).append(p)
     cands = oracle.overlap_pairs(pred, ref)
+    if metric == "ASSD":
+        # mathematically tied candidate scores may be ordered either way by float64 rounding
+        sc = [oracle.mask_score(metric, ref == r, pred == p) for (r, p) in cands]
+        if any(oracle.near(a, b) or a == b for i, a in enumerate(sc) for b in sc[i + 1:]):
+            fragile = True
     for r, ps in by_ref.items():
         for p in ps:
             if (r, p) not in cands:
